@@ -4,6 +4,11 @@ E4: all single choices and all pairs of (attribute, expression form) on every va
 reference value of each attribute expression at every point of a parameter grid is compared with
 (i) the attribute on the Variable object (MX attributes evaluated as functions of the model's
 parameters) and (ii) the matching row / column of variable_metadata_function.
+
+Histories: on a reduced set of models whose attributes depend on parameters, every sequence of at most 3
+(quick) / 4 (thorough) events from {read the metadata function, read the Variable attributes, simplify(o) for
+each metadata-rewriting option set o} is applied to ONE Model object; at every read and after the last event
+both views must equal the reference state machine's attribute values for the variables the model still lists.
 """
 import itertools
 import math
@@ -90,7 +95,7 @@ def cases(tier):
     return out
 
 
-def text_of(kind, mods):
+def decl_text(kind, mods):
     pre, typ, dims, own, eq = KINDS[kind]
     m = dict(mods)
     val = m.pop("value", None)
@@ -106,7 +111,12 @@ def text_of(kind, mods):
             s += " = 7"
         else:
             s += " = 0.75"
-    decl = ["parameter Real p = 2;", "parameter Real q = 3;", s + ";"]
+    return s + ";"
+
+
+def text_of(kind, mods):
+    eq = KINDS[kind][4]
+    decl = ["parameter Real p = 2;", "parameter Real q = 3;", decl_text(kind, mods)]
     lines = ["model M"] + ["  " + d for d in decl] + ["equation"]
     if eq:
         lines.append("  " + eq)
@@ -236,34 +246,476 @@ def check(job):
     return viol
 
 
+# =====================================================================================================
+# Histories on ONE Model object.
+#
+# The statement speaks of the generated model's Variable objects and its metadata function.  Options are
+# applied by Model.simplify(), which may be called again on a generated model (callers and the pinned
+# test-suite do so), and both the Variable objects and the function may be read at any moment.  So the
+# single "generate, read once" observation above is generalised to short histories of events
+#       RF  read variable_metadata_function        RV  read every attribute of every Variable
+#       simplify(o) for each metadata-rewriting option set o (OPTS)
+# and after the history (and at every read inside it) both views must equal the reference: the declared
+# attribute expressions of the variables the model still lists, evaluated with the parameters the model
+# still has at the grid values and the eliminated / resolved ones at their declared values.
+# =====================================================================================================
+K, R = V("k"), V("r")
+HFORMS = {
+    "affine-p": B("+", B("*", N(2), P), N(1)),
+    "p-times-q": B("*", P, Q),
+    "sin-p": ("call", "sin", (P,)),
+    "r-plus-k": B("+", R, K),
+    "k-times-p": B("*", K, P),
+    "sin-r": ("call", "sin", (R,)),
+}
+ROT_FORMS = ["affine-p", "r-plus-k", "p-times-q", "k-times-p"]  # all integer-valued on integers
+HGRID = [
+    {"p": 2.0, "q": 3.0, "k": 0.5, "r": -1.25, "c": 4.0, "x": 1.75},
+    {"p": -1.5, "q": 0.5, "k": 2.0, "r": 3.0, "c": -2.0, "x": 0.6},
+    {"p": 0.25, "q": -4.0, "k": -3.0, "r": 0.75, "c": 1.0, "x": -2.5},
+]
+OPTS = {  # event name -> option sets given to Model.simplify, in the order pymoca applies them inside one call
+    "RSV": ("resolve_parameter_values",),
+    "RPE": ("replace_parameter_expressions",),
+    "RCE": ("replace_constant_expressions",),
+    "RPV": ("replace_parameter_values",),
+    "RCV": ("replace_constant_values",),
+    "EV": ("expand_vectors",),
+    "DA": ("detect_aliases",),
+    "PEV": ("replace_parameter_expressions", "replace_parameter_values"),  # thorough only
+}
+STEP_OF = {"resolve_parameter_values": "RSV", "replace_parameter_expressions": "RPE", "replace_constant_expressions": "RCE",
+           "replace_parameter_values": "RPV", "replace_constant_values": "RCV", "expand_vectors": "EV", "detect_aliases": "DA"}
+READS = ("RF", "RV")
+TYPES = {"Real": float, "Integer": int, "Boolean": bool}
+
+
+def deps(e):
+    """Names an expression of the reference AST mentions."""
+    k = e[0]
+    if k == "var":
+        return {e[1]}
+    if k in ("num", "bool"):
+        return set()
+    if k == "un":
+        return deps(e[2])
+    if k == "bin":
+        return deps(e[2]) | deps(e[3])
+    if k in ("call", "arr"):
+        return set().union(*[deps(x) for x in e[-1]]) if e[-1] else set()
+    raise ValueError(e)
+
+
+def hmodels(tier):
+    """(context, kind, mods): context 'min' declares p, q; 'full' also a free parameter k and r = 2*p + 1."""
+    out = []
+
+    def add(kind, mods):
+        used = set()
+        for fn, e, each in mods.values():
+            used |= deps(e)
+        out.append(("full" if used & {"k", "r"} else "min", kind, mods))
+
+    num_attrs = ("min", "max", "start", "nominal")
+    # one attribute, every form: each form's own transitions (non-affine -> constant, bilinear -> affine, ...)
+    for i, (fn, fe) in enumerate(HFORMS.items()):
+        for a in num_attrs if tier == "thorough" else (num_attrs[i % 4], num_attrs[(i + 2) % 4]):
+            add("alg-Real", {a: (fn, fe, False)})
+    for fn, fe in HFORMS.items():
+        add("parameter-Real", {"value": (fn, fe, False)})
+    for fn in ("affine-p", "p-times-q", "r-plus-k"):
+        add("constant-Real", {"value": (fn, HFORMS[fn], False)})
+    # all attributes at once, forms rotated over the attributes, on the other kinds
+    kinds = ["alg-Real", "state-Real", "input-Real", "parameter-Real", "constant-Real", "alg-Real-1d", "alg-Integer"]
+    rots = (0, 2)
+    if tier == "thorough":
+        kinds += ["state-Real-1d", "alg-Real-2d", "alg-Real-output", "parameter-Integer"]
+    for kind in kinds:
+        pre, typ, dims, own, _ = KINDS[kind]
+        for rot in rots:
+            mods = {}
+            for i, a in enumerate(num_attrs):
+                fn = ROT_FORMS[(i + rot) % 4]
+                mods[a] = (fn, HFORMS[fn], bool(dims))
+            mods["fixed"] = ("bool", ("bool", True), bool(dims))
+            if own:
+                fn = ROT_FORMS[(3 + rot) % 4]
+                mods["value"] = (fn, HFORMS[fn], False)
+            if dims and rot == 2:  # one attribute given element by element
+                lit = ("arr", tuple(N(i + 1.5) for i in range(dims[0]))) if len(dims) == 1 else ("arr", (("arr", (N(1), N(2))), ("arr", (N(3), N(4)))))
+                mods["max"] = ("array-literal", lit, False)
+            add(kind, mods)
+    return out
+
+
+def hkey(spec):
+    ctxn, kind, mods = spec
+    return "%s|%s|%s" % (ctxn, kind, "+".join("%s=%s%s" % (a, "each-" if mods[a][2] else "", mods[a][0]) for a in mods))
+
+
+def hdecls(spec):
+    """The reference's view of the declarations: dicts name / group / typ / dims / attrs {a: expr} / value expr|None."""
+    ctxn, kind, mods = spec
+    pre, typ, dims, own, eq = KINDS[kind]
+    T = "Integer" if typ == "Integer" else "Real"
+    d = []
+
+    def decl(name, group, typ, dims=(), attrs=None, value=None):
+        d.append({"name": name, "group": group, "typ": typ, "dims": tuple(dims), "attrs": attrs or {}, "value": value})
+
+    decl("p", "parameters", T, value=N(2))
+    decl("q", "parameters", T, value=N(3))
+    if ctxn == "full":
+        decl("k", "parameters", T)
+        decl("r", "parameters", T, value=HFORMS["affine-p"])
+    decl("c", "constants", "Real", value=N(4))
+    decl("z", "alg_states", "Real")
+    decl("w", "alg_states", "Real")
+    attrs = {a: mods[a][1] for a in mods if a != "value"}
+    value = None
+    if own:
+        value = mods["value"][1] if "value" in mods else (N(7) if typ == "Integer" else N(0.75))
+    decl("x", GROUP_OF[kind.split("-")[0]], typ, dims, attrs, value)
+    return d
+
+
+def htext(spec):
+    ctxn, kind, mods = spec
+    lines = ["model M"]
+    for d in hdecls(spec):
+        if d["name"] == "x":
+            lines.append("  " + decl_text(kind, mods))
+        else:
+            pre = {"parameters": "parameter ", "constants": "constant ", "alg_states": ""}[d["group"]]
+            lines.append("  %s%s %s%s;" % (pre, d["typ"], d["name"], "" if d["value"] is None else " = " + M.pe(d["value"])))
+    lines += ["equation", "  w = z;"]
+    if KINDS[kind][4]:
+        lines.append("  " + KINDS[kind][4])
+    return "\n".join(lines + ["end M;"]) + "\n"
+
+
+# ---- reference state machine: (removed names, substituted names, aliased?, expanded?) -------------------------
+INIT = (frozenset(), frozenset(), False, False)
+
+
+def hstep(decls, state, ev):
+    """What simplify(OPTS[ev]) does to the metadata, by the meaning of the options:
+    RSV  every parameter / constant whose value is (or thereby becomes) a number is inlined; all stay listed;
+    RPE / RCE  parameters / constants whose value still depends on a listed symbol are replaced by that expression;
+    RPV  parameters whose value is a number on entry are inlined and removed;  RCV  all constants are inlined and removed;
+    DA  one of the aliased pair z, w disappears;  EV  arrays are replaced by their elements."""
+    removed, subst, aliased, expanded = state
+    for opt in OPTS[ev]:
+        one = STEP_OF[opt]
+        listed = [d for d in decls if d["name"] not in removed]
+        is_num = lambda d: d["value"] is not None and deps(d["value"]) <= subst  # noqa: E731
+        has_expr = lambda d: d["value"] is not None and not deps(d["value"]) <= subst  # noqa: E731
+        if one == "RSV":
+            while True:
+                new = {d["name"] for d in listed if d["group"] in ("parameters", "constants") and is_num(d)} - subst
+                if not new:
+                    break
+                subst = subst | new
+        elif one in ("RPE", "RCE"):
+            g = "parameters" if one == "RPE" else "constants"
+            gone = {d["name"] for d in listed if d["group"] == g and has_expr(d)}
+            removed, subst = removed | gone, subst | gone
+        elif one == "RPV":
+            gone = {d["name"] for d in listed if d["group"] == "parameters" and is_num(d)}
+            removed, subst = removed | gone, subst | gone
+        elif one == "RCV":
+            gone = {d["name"] for d in listed if d["group"] == "constants"}
+            removed, subst = removed | gone, subst | gone
+        elif one == "DA":
+            aliased = True
+        elif one == "EV":
+            expanded = expanded or any(d["dims"] for d in listed)
+    return (frozenset(removed), frozenset(subst), aliased, expanded)
+
+
+def henv(decls, state, gp):
+    env = {}
+    for d in decls:
+        if d["group"] in ("parameters", "constants"):
+            env[d["name"]] = M.evn(d["value"], env) if d["name"] in state[1] else gp[d["name"]]
+    return env
+
+
+def hrows(decls, state, group):
+    """Alternatives (the alias pair may lose either member) of the ordered rows [(name, decl, index|None)]."""
+    removed, subst, aliased, expanded = state
+    alts = []
+    for drop in ("w", "z") if aliased else (None,):
+        rows = []
+        for d in decls:
+            if d["group"] != group or d["name"] in removed or d["name"] == drop:
+                continue
+            if d["dims"] and expanded:
+                for ind in np.ndindex(*d["dims"]):
+                    rows.append(("%s[%s]" % (d["name"], ",".join(str(i + 1) for i in ind)), d, ind))
+            else:
+                rows.append((d["name"], d, None))
+        if rows not in alts:
+            alts.append(rows)
+    return alts
+
+
+def hvalue(d, ind, a, env):
+    """Expected values (column-major vector) of attribute a of declaration d (element ind if expanded)."""
+    n = int(np.prod(d["dims"])) if d["dims"] else 1
+    if a == "value":
+        v = float("nan") if d["value"] is None else M.evn(d["value"], env)
+    elif a in d["attrs"]:
+        v = M.evn(d["attrs"][a], env)
+    else:
+        v = DEFAULT[a]
+    arr = np.asarray(v, dtype=float)
+    if arr.ndim == 0:
+        arr = np.full(d["dims"] or (1,), float(arr))
+    if ind is not None:
+        return np.array([arr[ind]])
+    return arr.flatten(order="F") if arr.ndim == 2 else arr.reshape(n)
+
+
+def _live_pvals(m, gp):
+    return {v.symbol.name(): gp[v.symbol.name()] for v in m.parameters if v.symbol.name() in gp}
+
+
+def observe_v(m, decls, state):
+    """Every attribute of every listed Variable against the reference; None or (clause, group, attr, message)."""
+    for g in MD_GROUPS:
+        names = [v.symbol.name() for v in getattr(m, g)]
+        alts = hrows(decls, state, g)
+        rows = [r for r in alts if [x[0] for x in r] == names]
+        if not rows:
+            return ("variable-list", g, "-", "model.%s lists %r, expected %s" % (g, names, " or ".join(repr([x[0] for x in r]) for r in alts)))
+        for var, (name, d, ind) in zip(getattr(m, g), rows[0]):
+            if var.python_type is not TYPES[d["typ"]]:
+                return ("python-type", g, "-", "python_type of %s is %s, declared %s" % (name, var.python_type.__name__, d["typ"]))
+            n = 1 if (ind is not None or not d["dims"]) else int(np.prod(d["dims"]))
+            for gp in HGRID:
+                env = henv(decls, state, gp)
+                pvals = _live_pvals(m, gp)
+                for a in ATTRS:
+                    val = getattr(var, a)
+                    try:
+                        got = attr_value(m, val, pvals)
+                    except Exception as e:
+                        return ("attribute-unreadable", g, a, "%s.%s = %r cannot be evaluated in the model's parameters: %r" % (name, a, val, e))
+                    if got.size == 1 and n > 1:
+                        got = np.full(n, float(got[0]))
+                    want = hvalue(d, ind, a, env)
+                    if not same(got, want):
+                        return ("attribute-value", g, a, "Variable.%s of %s evaluates to %r at %r, declared value is %r" % (a, name, got.tolist(), pvals, want.tolist()))
+            if d["typ"] == "Integer":
+                for a in ("value", "min", "max", "start", "nominal"):
+                    if (a in d["attrs"] or (a == "value" and d["value"] is not None)) and not hasattr(getattr(var, a), "is_constant"):
+                        val = getattr(var, a)
+                        if not isinstance(val, int) or isinstance(val, bool):
+                            return ("literal-python-type", g, a, "Integer variable %s: attribute %s is %r (%s), expected a Python int" % (name, a, val, type(val).__name__))
+    return None
+
+
+def observe_f(m, decls, state):
+    """variable_metadata_function, taken now, against the reference."""
+    import casadi as ca
+
+    try:
+        f = m.variable_metadata_function
+    except Exception as e:
+        return ("metadata-function-raises", "-", "-", "variable_metadata_function raises %r" % (e,))
+    npar = sum(v.symbol.shape[0] * v.symbol.shape[1] for v in m.parameters)
+    if f.n_in() != 1 or f.numel_in(0) != npar or f.n_out() != len(MD_GROUPS):
+        return ("metadata-function-arity", "parameters", "-", "variable_metadata_function is %s, the model has %d parameter value(s) %r" % (f, npar, [v.symbol.name() for v in m.parameters]))
+    for gp in HGRID:
+        env = henv(decls, state, gp)
+        pvec = []
+        for v in m.parameters:
+            pvec += cas.flat(gp[v.symbol.name()], v.symbol.shape)
+        try:
+            outs = f(ca.DM(pvec))
+        except Exception as e:
+            return ("metadata-function-raises", "-", "-", "variable_metadata_function(%r) raises %r" % (pvec, e))
+        for j, g in enumerate(MD_GROUPS):
+            mat = np.array(ca.DM(outs[j]))
+            rows = hrows(decls, state, g)[0]  # the alternatives differ in names only, z and w carry defaults
+            cols = []
+            for a in ATTRS:
+                col = [hvalue(d, ind, a, env) for (name, d, ind) in rows]
+                cols.append(np.concatenate(col) if col else np.zeros(0))
+            want = np.array(cols).T.reshape(-1, len(ATTRS))
+            if mat.shape != want.shape:
+                return ("metadata-function-rows", g, "-", "variable_metadata_function reports a %r block for %s, the model lists %r" % (mat.shape, g, [x[0] for x in rows]))
+            for jj, a in enumerate(ATTRS):
+                if not same(mat[:, jj], want[:, jj]):
+                    return ("metadata-function-values", g, a, "variable_metadata_function gives %s = %r for %r at %r, declared values are %r" % (a, mat[:, jj].tolist(), [x[0] for x in rows], _live_pvals(m, gp), want[:, jj].tolist()))
+    return None
+
+
+def run_history(spec, hist):
+    """('ok'|'cut'|'viol'|'gen', index of the event, detail, reference state changed?)"""
+    text = htext(spec)
+    decls = hdecls(spec)
+    try:
+        m = cas.generate(text, "M")
+    except Exception as e:
+        return ("gen", 0, common.exc_sig(e) + " %r" % (e,), False)
+    state = INIT
+    changed = False
+    for i, ev in enumerate(tuple(hist) + ("RV", "RF")):  # the closing observation
+        if ev in READS:
+            v = observe_f(m, decls, state) if ev == "RF" else observe_v(m, decls, state)
+            if v is not None:
+                return ("viol", i, v, changed)
+        else:
+            try:
+                m.simplify({o: True for o in OPTS[ev]})
+            except Exception as e:
+                return ("cut", i, "%s:%s" % (ev, common.exc_sig(e)), changed)
+            new = hstep(decls, state, ev)
+            changed = changed or new != state
+            state = new
+    return ("ok", len(hist), None, changed)
+
+
+def hevents(spec, tier, depth):
+    """Reads, and every option set the reference says can change this model's metadata within the bound."""
+    decls = hdecls(spec)
+    names = [e for e in OPTS if e != "PEV" or tier == "thorough"]
+    seen, frontier, useful = {INIT}, [INIT], set()
+    for _ in range(depth):
+        nxt = []
+        for st in frontier:
+            for e in names:
+                s2 = hstep(decls, st, e)
+                if s2 != st:
+                    useful.add(e)
+                    if s2 not in seen:
+                        seen.add(s2)
+                        nxt.append(s2)
+        frontier = nxt
+    return list(READS) + [e for e in names if e in useful], len(seen)
+
+
+def hdepth(tier):
+    return 4 if tier == "thorough" else 3
+
+
+def hjobs(tier):
+    jobs = []
+    for idx, spec in enumerate(hmodels(tier)):
+        evs, _ = hevents(spec, tier, hdepth(tier))
+        jobs.append((tier, idx, ()))
+        for e in evs:
+            if tier == "thorough":
+                jobs += [(tier, idx, (e, e2)) for e2 in evs]
+            else:
+                jobs.append((tier, idx, (e,)))
+    return jobs
+
+
+def hcheck(job):
+    """All histories of one model that start with the given events (the job with no events: the empty
+    history and, thorough, the histories of length 1)."""
+    tier, idx, prefix = job
+    spec = hmodels(tier)[idx]
+    depth = hdepth(tier)
+    evs, _ = hevents(spec, tier, depth)
+    if not prefix:
+        hists = [()] + ([(e,) for e in evs] if tier == "thorough" else [])
+    else:
+        hists = [tuple(prefix) + tail for n in range(depth - len(prefix) + 1) for tail in itertools.product(evs, repeat=n)]
+    viol, cuts, n_changed = [], {}, 0
+    text = htext(spec)
+    for h in hists:
+        kind, i, detail, changed = run_history(spec, h)
+        n_changed += bool(changed)
+        case = {"text": text, "model": hkey(spec), "history": list(h)}
+        hs = ">".join(h) or "generate"
+        if kind == "gen":
+            if not h:
+                viol.append(("generate-raises:%s:%s" % (hkey(spec), detail.split(" ")[0]), "does not generate: %s\n%s" % (detail, text), case))
+        elif kind == "cut":
+            cuts[detail] = cuts.get(detail, 0) + 1
+        elif kind == "viol":
+            # report minimal histories only: one that still fails with an event left out is reported by that shorter history
+            if any(run_history(spec, h[:j] + h[j + 1 :])[0] == "viol" for j in range(len(h))):
+                continue
+            clause, g, a, msg = detail
+            at = "closing observation" if i >= len(h) else "event %d" % (i + 1)
+            viol.append(("history-%s:%s:%s:%s:%s" % (clause, spec[1], g, a, hs),
+                         "after the history [%s] on one Model object (%s): %s\n%s" % (hs, at, msg, text), case))
+    return viol, cuts, len(hists), n_changed
+
+
 def run(ctx):
     cs = cases(ctx.tier)
+    hj = hjobs(ctx.tier)
     with common.Pool() as pool:
         res = pool.map(check, cs, chunksize=8)
+        hres = pool.map(hcheck, hj, chunksize=1)
     for viol in res:
         for sig, msg, case in viol:
             ctx.violation(sig, msg, case)
+    n_hist = n_changed = 0
+    cuts = {}
+    for viol, c, n, nc in hres:
+        for sig, msg, case in viol:
+            ctx.violation(sig, msg, case)
+        for k, v in c.items():
+            cuts[k] = cuts.get(k, 0) + v
+        n_hist += n
+        n_changed += nc
     texts = {text_of(k, m) for k, m in cs}
     for k in (1, len(cs) // 2, len(cs) - 1):
         ctx.sample({"kind": cs[k][0], "model": text_of(*cs[k])})
+    hm = hmodels(ctx.tier)
+    for k in (0, len(hm) // 2, len(hm) - 1):
+        ctx.sample({"history_model": hkey(hm[k]), "events": hevents(hm[k], ctx.tier, hdepth(ctx.tier))[0], "model": htext(hm[k])})
     ctx.coverage.update(
         {
-            "evaluations": len(cs) * len(GRID),
+            "evaluations": len(cs) * len(GRID) + n_hist * len(HGRID),
             "programs": len(cs),
             "distinct_nontrivial": len({t for t in texts if "(" in t.split("x", 1)[1].split(";")[0] or " = " in t.split(" x", 1)[1].split(";")[0]}),
             "grid": GRID,
+            "history_models": len(hm),
+            "history_depth": hdepth(ctx.tier),
+            "histories": n_hist,
+            "histories_nontrivial": n_changed,
+            "histories_cut_by_simplify_raising": cuts,
+            "reference_states_reached": sum(hevents(sp, ctx.tier, hdepth(ctx.tier))[1] for sp in hm),
             "exhaustive": True,
-            "rule": "for each of %d variable kinds (Real/Integer/Boolean; scalar, 1-D, 2-D; algebraic/state/input/parameter/"
+            "rule": "(1) for each of %d variable kinds (Real/Integer/Boolean; scalar, 1-D, 2-D; algebraic/state/input/parameter/"
             "constant): defaults, every single (attribute, form) with forms real literal, integer literal, -p, 2*p+1, p/2, p*q, "
             "p^2, sin(p) (each-modified for arrays), array literals, fixed true/false, and all pairs of attributes with forms "
             "literal / affine / non-affine; each checked on the Variable object and in variable_metadata_function at %d "
-            "parameter points. Non-trivial = the declaration carries at least one attribute or value." % (len(KINDS), len(GRID)),
+            "parameter points. Non-trivial = the declaration carries at least one attribute or value.  "
+            "(2) histories on one Model object: for %d models whose attributes depend on parameters (with values, free, "
+            "and defined by an expression), a constant and an alias pair, every sequence of at most %d events from {read "
+            "the metadata function, read every Variable attribute, simplify(o)} with o each option set that can change "
+            "the model's metadata by the reference (resolve_parameter_values, replace_parameter_expressions, "
+            "replace_constant_expressions, replace_parameter_values, replace_constant_values, expand_vectors, detect_aliases%s); "
+            "both views are compared with the reference at every read and after the last event, for every listed variable "
+            "and every variable list.  A history is non-trivial when one of its simplify calls changes the reference state."
+            % (len(KINDS), len(GRID), len(hm), hdepth(ctx.tier), "; replace_parameter_expressions + replace_parameter_values together" if ctx.tier == "thorough" else ""),
         }
     )
     ctx.assumptions.append("array attributes with parameter-dependent *elements* ({p, 2*p}) are outside the alphabet")
+    ctx.assumptions.append(
+        "histories: a simplify() call that raises ends the history without a verdict (counted in histories_cut_by_simplify_raising); "
+        "attributes never mention constants (pymoca's metadata function takes parameters only); the aliased pair carries default "
+        "attributes, so no rule for merging alias attributes is assumed; either member of the pair may be the one that is kept"
+    )
 
 
 def replay(case):
+    if "history" in case:
+        for spec in hmodels("thorough") + hmodels("quick"):
+            if hkey(spec) == case["model"] and htext(spec) == case["text"]:
+                r = run_history(spec, tuple(case["history"]))
+                print(case["text"], ">".join(case["history"]) or "generate", r[:3])
+                return r[0] in ("ok", "cut")
+        return True
     for k, m in cases("thorough"):
         if text_of(k, m) == case["text"]:
             v = check((k, m))
